@@ -84,6 +84,8 @@ func runC07(w *World, r *Report) {
 	r.Rule("C07-R3", "errors are returned", "marshal error, completion error and base64 error: the branch `e != nil` returns e as the error result", 3)
 	r.Rule("C07-R4", "exactly one completion", "handler loop: after ReplicateMessage exactly one of FailFunc(param, err)/SuccessFunc(param) on every path; handleMessage: exactly one of FailFunc / enqueue; writer closures: both send on the channel whose receive dominates the success return", 5)
 	r.Rule("C07-R5", "replicate marking", "under replicateID != \"\": IsReplicate=true and ReplicateID=c.replicateID stored into the message base's ReplicateInfo (created and attached when nil); ticks replaced by ReplicateMsg{Begin/EndTimestamp from the tick, Base{MsgType_Replicate, Timestamp: EndTs, ReplicateInfo{true, id}}}", 6)
+	r.Rule("C07-R7", "a message is serialised after its last rewrite", "in HandleReplicateMessage no store into a field of the message (names, replicate marking) is reachable, within the same loop iteration, after the message was marshalled: the bytes sent are the bytes of the message as handed downstream", 1)
+	c07MarshalLast(w, r)
 	r.Rule("C07-R6", "handler forwards the parameter", "MilvusDataHandler.ReplicateMessage passes param.{ChannelName,BeginTs,EndTs,MsgsBytes,StartPositions,EndPositions,Base} in the client's argument order, stores resp.Position into TargetMsgPosition and returns err/opErr", 3)
 
 	hrm := w.Func(pkgWriter, "ChannelWriter", "HandleReplicateMessage")
@@ -688,4 +690,73 @@ func lastInstrOf(fn *ssa.Function, v *ssa.Alloc) ssa.Instruction {
 		}
 	}
 	return best
+}
+
+// c07MarshalLast: C07-R7.
+func c07MarshalLast(w *World, r *Report) {
+	fn := w.Func(pkgWriter, "ChannelWriter", "HandleReplicateMessage")
+	if fn == nil {
+		r.Undecided("C07-R7", "HandleReplicateMessage", 0, "anchor not found")
+		return
+	}
+	n := 0
+	eachInstr(fn, func(in ssa.Instruction) {
+		c, ok := in.(*ssa.Call)
+		if !ok || !c.Call.IsInvoke() || c.Call.Method.Name() != "Marshal" {
+			return
+		}
+		n++
+		h := loopHeaderOf(c.Block())
+		stop := map[*ssa.BasicBlock]bool{}
+		if h != nil {
+			stop[h] = true
+		}
+		reach := blockReach(c.Block(), stop)
+		bad := token.NoPos
+		what := ""
+		check := func(x ssa.Instruction) {
+			st, isSt := x.(*ssa.Store)
+			if !isSt {
+				return
+			}
+			fa, isFA := st.Addr.(*ssa.FieldAddr)
+			if !isFA {
+				return
+			}
+			for _, v := range backSlice(fa.X, SliceOpts{MaxDepth: 6, NoAggregates: true}) {
+				isMsg := false
+				if ta, isTA := v.(*ssa.TypeAssert); isTA && strings.Contains(ta.AssertedType.String(), "msgstream.") {
+					isMsg = true
+				}
+				if cc, isC := v.(*ssa.Call); isC && cc.Call.IsInvoke() && cc.Call.Method.Name() == "GetBase" {
+					isMsg = true
+				}
+				if isMsg {
+					bad, what = st.Pos(), fieldName(fa.X.Type(), fa.Field)
+				}
+			}
+		}
+		after := false
+		for _, x := range c.Block().Instrs {
+			if x == ssa.Instruction(c) {
+				after = true
+				continue
+			}
+			if after {
+				check(x)
+			}
+		}
+		for b := range reach {
+			if b == c.Block() {
+				continue
+			}
+			for _, x := range b.Instrs {
+				check(x)
+			}
+		}
+		r.Check(bad == token.NoPos, "C07-R7", fmt.Sprintf("(*ChannelWriter).HandleReplicateMessage | Marshal#%d is the last touch", n), c.Pos(), "no message field is written after the message was marshalled", "field "+what+" of the message is written after the message was marshalled: the bytes sent downstream keep the old value (e.g. the unmapped source names) while the pack in memory says otherwise")
+	})
+	if n == 0 {
+		r.Undecided("C07-R7", "(*ChannelWriter).HandleReplicateMessage | Marshal", fn.Pos(), "no Marshal call found")
+	}
 }
